@@ -140,6 +140,25 @@ def handleSigV4 (op : String) (j : Json) : Except String Json := do
       let p := uploadStream c ⟨data, ← getNat j "pos"⟩ (← getNat j "length") (← getNat j "chunk")
       pure (Json.mkObj [("digest_of", jhex p.declaredDigest), ("length", jnat p.declaredLength), ("body", jhex p.body)])
     | k => throw s!"unknown payload kind {k}"
+  | "sigv4.retry" =>
+    -- `faults`: [[class (0 = error status, 1 = transport error), parts pulled], …] → one entry per PUT attempt
+    let data ← getBytes j "data"
+    let c : Crypto := { realCrypto with sha := fun m => m }
+    let fs ← (← getArr j "faults").toList.mapM fun x => do
+      let p ← x.getArr?
+      match p.toList with
+      | [k, n] =>
+        let k ← k.getNat?
+        let n ← n.getNat?
+        if k == 0 then pure (⟨FaultClass.status, n⟩ : Fault)
+        else if k == 1 then pure ⟨FaultClass.transport, n⟩
+        else throw "fault class 0 or 1 expected"
+      | _ => throw "fault: [class, pulled] expected"
+    let as := uploadStreamRetried c ⟨data, ← getNat j "pos"⟩ (← getNat j "length") (← getNat j "chunk") fs
+    pure (Json.mkObj [("attempts", Json.arr (as.map fun a => Json.mkObj [("digest_of", jhex a.put.declaredDigest),
+      ("length", jnat a.put.declaredLength), ("body", jhex a.put.body), ("sent", jhex a.sent)]).toArray),
+      ("rewind_on_status", Json.bool Gen.s3PutRewindOnStatus), ("rewind_on_transport", Json.bool Gen.s3PutRewindOnTransport),
+      ("rewind_to", jnat Gen.s3PutRewindTo)])
   | _ => throw s!"unknown op {op}"
 
 end Driver.HSigV4
